@@ -165,6 +165,9 @@ class MatchMixin:
                 fields[f.name] = UVal(self.ctx.fn(base, U, U)(v.t), kind)
         o = Obj(target, fields)
         self.ctx.views[key] = o
+        h = getattr(self, "view_hook", None)
+        if h is not None:
+            h(self, v, o)
         try:
             self.ctx.assume(v.t == self.to_u(o))
         except Unsupported:
